@@ -1,6 +1,7 @@
 import A5.Model.GenericGeo
 import A5.Lemmas.RadialRoundTrip
 import A5.Lemmas.AngularRoundTrip2
+import A5.Lemmas.PolyTies
 import Mathlib.Tactic.Ring
 import Mathlib.Tactic.FieldSimp
 import Mathlib.Tactic.LinearCombination
@@ -28,8 +29,11 @@ both directions; T8 combines the halves: `inverse(forward v) = v` in exact real 
 triangle, and within 5e-16 with the two-branch `safe_acos`.  NOT proved: float rounding; the small-|s| branch of the
 area, the vertex snapping and the small-angle slerp branch (excluded by hypothesis); that the 120 dodecahedron triangles
 built from the runtime constants satisfy the hypotheses (closed inequalities on constants, checked numerically on every
-run by the round-trip search); the real vector functions are transcriptions of the model's expression trees, tied by
-`rfl` only for `safe_acos`.  The full `Float` statement stays `projection_roundtrip_statement`. -/
+run by the round-trip search).  T9 restates the combined round trip on the GENERIC TWINS of `polyhedralForward` /
+`polyhedralInverse` (`A5/Model/GenericPoly.lean`: one expression tree, tied to the Float model by `polyhedralForward_tie` /
+`polyhedralInverse_tie` and to the real transcriptions used in T6-T8 by `A5/Lemmas/PolyTies.lean`, whose header lists the
+five places where a transcription drops a branch: the small-|s| area branch, the vertex snapping, `2·asin` for `safe_acos`).
+The full `Float` statement stays `projection_roundtrip_statement`. -/
 namespace A5.C15
 open A5 A5.G
 
@@ -369,5 +373,40 @@ theorem polyhedral_roundtrip_real {a b c : R3} {q s : ℝ} (ha : dotR a a = 1) (
   ⟨(polyhedral_roundtrip_exact ha hb hc hV hD hγ hγ' hq0 hq1 hs0 hs1).1,
    (polyhedral_roundtrip_exact ha hb hc hV hD hγ hγ' hq0 hq1 hs0 hs1).2,
    (polyhedral_roundtrip_safeAcos ha hb hc hV hD hγ hγ' hq0 hq1 hs0 hs1).2⟩
+
+/-! ## T9: the round trip on the generic twins of the model functions -/
+
+open A5.GP A5.PolyTies in
+/-- T9. `polyhedral_roundtrip_twin`: the SAME generic definitions that, instantiated at `Float`, are the model's
+`polyhedralForward` / `polyhedralInverse` (`GP.polyhedralForward_tie`, `GP.polyhedralInverse_tie`), instantiated at `ℝ`
+(libm read as the real functions, generated switches as their exact values) satisfy `inverse (forward v) = v` within
+5e-16 on every point `v = slerp(a, slerp(b, c, q), s)` of a counter-clockwise unit triangle - including the vertex
+snapping and the two-branch `safe_acos` - under the stated branch hypotheses (areas on the asin branch, no snap). -/
+theorem polyhedral_roundtrip_twin {a b c : T3 ℝ} {q s : ℝ} (ha : dotG a a = 1) (hb : dotG b b = 1)
+    (hc : dotG c c = 1) (hV : 0 < tripleG a b c) (hD : 0 < 1 + dotG a b + dotG b c + dotG c a)
+    (hγ : realKit.slerpSwitch ≤ angleG realKit b c)
+    (hγ' : realKit.slerpSwitch ≤ angleG realKit a (slerpG realKit b c q))
+    (hq0 : 0 ≤ q) (hq1 : q ≤ 1) (hs0 : 0 < s) (hs1 : s ≤ 1)
+    (hE : AreaAgreesG a b c) (hE2 : AreaAgreesG a (slerpG realKit b c q) c)
+    (hE3 : AreaAgreesG a b (slerpG realKit b c q))
+    (hn1 : ¬ (forwardBaryG realKit a b c (slerpG realKit a (slerpG realKit b c q) s)).1
+      > realKit.one - realKit.snapEps)
+    (hn2 : ¬ (forwardBaryG realKit a b c (slerpG realKit a (slerpG realKit b c q) s)).2.1
+      > realKit.one - realKit.snapEps)
+    (hn3 : ¬ (forwardBaryG realKit a b c (slerpG realKit a (slerpG realKit b c q) s)).2.2
+      > realKit.one - realKit.snapEps) :
+    dotG (inverseBaryG realKit a b c (forwardBaryG realKit a b c (slerpG realKit a (slerpG realKit b c q) s)))
+        (inverseBaryG realKit a b c (forwardBaryG realKit a b c (slerpG realKit a (slerpG realKit b c q) s))) = 1 ∧
+    lengthG realKit (subG (inverseBaryG realKit a b c (forwardBaryG realKit a b c
+        (slerpG realKit a (slerpG realKit b c q) s))) (slerpG realKit a (slerpG realKit b c q) s)) ≤ 5e-16 :=
+  polyhedral_roundtrip_full_twin ha hb hc hV hD hγ hγ' hq0 hq1 hs0 hs1 hE hE2 hE3 hn1 hn2 hn3
+
+/-- the Float model IS the twin at `Float` (no float arithmetic is reasoned about: structure only) -/
+theorem model_is_twin (v : V3) (st : SphTriangle) (ft : FaceTriangle) (fp : V2) :
+    polyhedralForward v st ft =
+      barycentricToFace (GP.forwardBaryG GP.floatKit (GP.toT st.a) (GP.toT st.b) (GP.toT st.c) (GP.toT v)) ft ∧
+    GP.toT (polyhedralInverse fp ft st) =
+      GP.inverseBaryG GP.floatKit (GP.toT st.a) (GP.toT st.b) (GP.toT st.c) (faceToBarycentric fp ft) :=
+  ⟨GP.polyhedralForward_tie v st ft, GP.polyhedralInverse_tie fp ft st⟩
 
 end A5.C15
